@@ -49,6 +49,13 @@ def run(ctx):
         "miri": dict(magg, processes_lost=mlost),
         "proc": pagg,
     }
+    # threads and forked children in a C client (own contexts, handed-over contexts, inherited contexts)
+    from . import client as _client
+    _mv, _ms = _client.run_mt(ctx, "C03", 2.0 if ctx.quick() else 20.0)
+    viol += _mv
+    coverage["multi_threaded_c_client"] = _ms
+    if any("inconclusive" in str(v) or str(v).startswith("exit ") for v in _ms.values()) and not inconclusive:
+        inconclusive = "multi-threaded C client scenario did not complete: %s" % _ms
     finish(ctx, coverage, viol, inconclusive, assumptions=["publication records are keyed by index so order is a comparison of integers",
                                                           "Miri catch-up mode: the harness' S/P counters are SeqCst atomics (gives the reader happens-before from completed publications only)"])
 
